@@ -396,7 +396,7 @@ func GroupByIWithContext[T any, K comparable](iteratee func(ctx context.Context,
 				sub.Unsubscribe()
 
 				for _, o := range takeGroups() {
-					o.CompleteWithContext(context.TODO())
+					o.CompleteWithContext(subscriberCtx)
 				}
 			}
 		})
